@@ -329,6 +329,8 @@ class Folder:
             return env[n.id]
         if n.id in _TYPE_NAMES:
             return TypeTag(n.id)
+        if n.id == "Ellipsis":
+            return Ellipsis
         if n.id in ("True", "False", "None"):
             return {"True": True, "False": False, "None": None}[n.id]
         f = self._ctx_func()
@@ -522,6 +524,17 @@ class Folder:
             return repr(self.ev(sl, env))
         except Refuse:
             return " ".join(ast.unparse(sl).split())
+
+    def e_Slice(self, n, env):
+        parts = [self.ev(x, env) if x is not None else None for x in (n.lower, n.upper, n.step)]
+        if not all(p is None or (isinstance(p, int) and not isinstance(p, bool)) for p in parts):
+            raise Refuse("slice with non-integer bounds")
+        return slice(*parts)
+
+    def c_slice(self, a, kw):
+        if kw or not 1 <= len(a) <= 3 or not all(p is None or (isinstance(p, int) and not isinstance(p, bool)) for p in a):
+            raise Refuse("slice()")
+        return slice(*a)
 
     def e_Subscript(self, n, env):
         v = self.ev(n.value, env)
@@ -1039,6 +1052,12 @@ class Folder:
             return
         if isinstance(st, ast.AugAssign):
             cur = self.ev(ast.Name(id=st.target.id, ctx=ast.Load()), env) if isinstance(st.target, ast.Name) else None
+            if self.symbolic and isinstance(st.target, ast.Subscript) and type(st.op) in self._OPSYM:
+                # in-place update of part of an array: recorded, in order (container, index, operator, operand)
+                c = self.ev(st.target.value, env)
+                if isinstance(c, (Arr, Sym, Opaque)):
+                    self.trace.append(Sym("augitem", [c, self.ev(st.target.slice, env), self._OPSYM[type(st.op)], self.ev(st.value, env)]))
+                    return
             if cur is None and not isinstance(st.target, ast.Name):
                 raise Refuse("augassign target")
             val = self.ev(st.value, env)
